@@ -594,6 +594,9 @@ class Analyzer:
                 continue
             for idx, stmt in enumerate(f.body):
                 order.append((h, idx, stmt))
+                if isinstance(stmt, (ast.If, ast.Try, ast.With, ast.For, ast.While)) and \
+                        any(isinstance(x, (ast.Return, ast.Raise)) for x in ast.walk(stmt)):
+                    break       # what follows an early return is no longer executed unconditionally
         for fld in sorted(fields):
             first_bind = None
             first_read = None
